@@ -47,7 +47,7 @@ def run_demo(wt, demo, timeout=1800):
 def suite(wt):
   junit = os.path.join(wt, 'junit.xml')
   env = dict(os.environ, PYTHONDONTWRITEBYTECODE='1', JAX_PLATFORMS='cpu')
-  p = sh([PY, '-m', 'pytest', '-q', '-p', 'no:cacheprovider', '--timeout=900',
+  p = sh([PY, '-m', 'pytest', '-q', '-p', 'no:cacheprovider', '--timeout=3000',
           '--continue-on-collection-errors', '-n', '8', f'--junitxml={junit}'], cwd=wt, env=env,
          timeout=3600)
   tail = (p.stdout + p.stderr).strip().splitlines()[-1:]
